@@ -396,6 +396,7 @@ def run(chk, prog):
             chk.decide(RG_, chk.key(RG_, name), ok_, 'the patch is applied on every path',
                        '%s can return without applying the look-ahead patch: the changes stay in the patch, which the save '
                        'writers do not read' % name, f_.loc(0))
+    optional_keys_are_tabled(chk, prog)
 
 
 
@@ -518,3 +519,88 @@ def key_field_pairing(chk, prog, tr):
                        'save key "%s" is written from %s but read back into %s: the loaded story has the two values '
                        'exchanged / misplaced' % (k, sorted(fw), sorted(fr)), rf.loc(0))
     chk.floor(RP, 'save keys paired field-to-field', n, 14)
+
+
+# ---------------------------------------------------------------------------------------------------------------
+OPTIONAL_KEYS = {
+    ('Thread::write_json', 'cPath'): 'element with a null pointer: the reader leaves the pointer null',
+    ('Thread::write_json', 'idx'): 'written together with cPath',
+    ('Thread::write_json', 'fnStart'): '0 is the reader\'s default',
+    ('Thread::write_json', 'temp'): 'no temporaries: the reader starts from an empty map',
+    ('Thread::write_json', 'previousContentObject'): 'null previous pointer',
+    ('Flow::write_json', 'choiceThreads'): 'only threads that are no longer on the call stack',
+    ('StoryState::write_json', 'currentDivertTarget'): 'no pending divert',
+    ('json_write::write_choice', 'isInvisibleDefault'): 'false is the reader\'s default',
+    ('json_write::write_ink_list', 'origins'): 'only an empty list needs its origin names spelled out',
+    ('json_write::write_rt_container', '#f'): 'no count flags: 0 is the reader\'s default',
+    ('json_write::write_rt_container', '#n'): 'unnamed container',
+    ('json_write::write_rtobject', 'var'): 'a divert has either a variable target or a path',
+    ('json_write::write_rtobject', 'c'): 'conditional diverts only; false is the reader\'s default',
+    ('json_write::write_rtobject', 'exArgs'): 'external calls with arguments; 0 is the reader\'s default',
+    ('json_write::write_rtobject', 'CNT?'): 'a variable reference is written either as CNT? (path) or VAR? (name)',
+    ('json_write::write_rtobject', 'VAR?'): 'a variable reference is written either as CNT? (path) or VAR? (name)',
+    ('json_write::write_rtobject', 're'): 're-assignments only; the reader defaults to a new declaration = !re',
+}
+
+
+def _map_origin(fn, op):
+    """Block of the Map::new call that built the map a Map::insert receiver refers to (None when it is not local)."""
+    from analysis.defuse import du
+    seen, work = set(), [op]
+    while work:
+        o = work.pop()
+        if o.get('k') not in ('copy', 'move') or 'p' in o['pl']:
+            continue
+        l = o['pl']['l']
+        if l in seen:
+            continue
+        seen.add(l)
+        for df in du(fn).defs.get(l, []):
+            if df['kind'] == 'assign':
+                rv = df['rv']
+                if rv['k'] == 'ref' and 'p' not in rv['pl']:
+                    work.append({'k': 'copy', 'pl': {'l': rv['pl']['l']}})
+                elif rv['k'] in ('use', 'cast'):
+                    work.append(rv['op'])
+            elif df['kind'] == 'call' and callee_short(df['term']) == 'Map::new':
+                return df['bb']
+    return None
+
+
+def optional_keys_are_tabled(chk, prog):
+    from analysis.cfg import cfg
+    from analysis.wbf import err_exits
+    RO = 'C02.optional-keys-are-the-tabled-ones'
+    chk.rule(RO, 'In the save writers (json_write::*, *::write_json) a constant key is put into the object being built on '
+             'every successful path from the creation of that object (Map::new) to the return, except the keys of the '
+             'frozen table (each with the reader default that makes leaving it out exact). The readers fill in a default '
+             'for a missing key; a key that becomes optional is safe only if that default is the value left out - '
+             '"ci" of a variable pointer is read back as -1, which is not the 0 of a pointer to a global, and the '
+             'difference decides where an assignment through the pointer goes.')
+    lt = Tracer(prog, transparent=lambda cs: True, use_summaries=False)
+    n = nopt = 0
+    for f in sorted(prog.fns.values(), key=lambda f: f.p):
+        if f.crate != 'bladeink' or f.parent or not (f.short.startswith('json_write::') or f.short.endswith('::write_json')):
+            continue
+        g = cfg(f)
+        errs = [b for b, d_, s_ in err_exits(prog, f)]
+        for bb, t in f.calls():
+            if callee_short(t) != 'Map::insert' or len(t['args']) < 3:
+                continue
+            ks = consts_of(lt.prov(f, t['args'][1]))
+            M = _map_origin(f, t['args'][0]) if ks else None
+            if M is None:
+                continue
+            optional = g.path(g.succ[M], lambda b: b in g.returns, avoid=[bb] + errs) is not None
+            for k in sorted(ks):
+                n += 1
+                if not optional:
+                    continue
+                nopt += 1
+                chk.decide(RO, chk.key(RO, f.short, k), (f.short, k) in OPTIONAL_KEYS,
+                           'tabled optional key: %s' % OPTIONAL_KEYS.get((f.short, k)),
+                           '%s writes the key "%s" only under a condition and the key is not in the table of optional '
+                           'keys: what the reader assumes when the key is missing has to be exactly the value that was '
+                           'left out, for every value that is left out' % (f.short, k), f.loc(bb))
+    chk.floor(RO, 'constant keys written into locally built objects by the save writers', n, 52)
+    chk.floor(RO, 'optional keys among them', nopt, 17)
